@@ -243,8 +243,20 @@ def run(ctx):
     ctx.selftest_corrupt(TRACE, fsefn, corrupt_norm_zero, "public normaliser result: a present symbol set to 0 slots")
     ctx.selftest_corrupt(TRACE, ranssym, corrupt_symstep, "symbol-step law: state not restored")
     ctx.selftest_corrupt(TRACE, ranssym, corrupt_symstep_symbol, "symbol-step law: other symbol decoded")
-    ctx.selftest_corrupt(TRACE, huff, corrupt_batch_item, "batch of round trips: one decoded digest changed")
-    ctx.selftest_corrupt(TRACE, bitf, corrupt_batch_blob_id, "batch of round trips: blob id reused")
+    # the batch events may sit in a later file of the subject (thorough tier: files rotate): pick a file that has one
+    def _with_op(prefix, op, fallback):
+        for f in by_name:
+            if os.path.basename(f).startswith(prefix):
+                try:
+                    if ('"op": "%s"' % op) in open(f).read() or ('"op":"%s"' % op) in open(f).read():
+                        return f
+                except OSError:
+                    pass
+        if prefix != "c01-":
+            return _with_op("c01-", op, fallback)     # any subject (no subject of C01 carries a finding any more)
+        return fallback
+    ctx.selftest_corrupt(TRACE, _with_op("c01-huff0-", "roundtrips", huff), corrupt_batch_item, "batch of round trips: one decoded digest changed")
+    ctx.selftest_corrupt(TRACE, _with_op("c01-bitfield-", "roundtrips", bitf), corrupt_batch_blob_id, "batch of round trips: blob id reused")
     # --- evidence
     cov = ctx.cov
     subs = s1.get("subjects", {})
